@@ -203,6 +203,9 @@ type stashRefConst struct {
 }
 
 func (r *stashRefConst) set(v Value) {
+	if (*r.v)[r.idx] == nil {
+		panic(errAccessBeforeInit)
+	}
 	if r.strictConst {
 		panic(errAssignToConst)
 	}
